@@ -704,6 +704,12 @@ impl Scenario for C09 {
             offer(&mut b, t, vec![TokFault::TextHeaderCase]);
             offer(&mut b, t, vec![TokFault::TextTrailingDot]);
             offer(&mut b, t, vec![TokFault::TextTrailingDot, TokFault::TextTrailingDot]);
+            // header surgery: version ("k4"/"v4") is 2 chars, then the kind header incl. both dots
+            let hl = art.header().len();
+            for (at, n) in [(0usize, 2usize), (2, hl), (2, hl - 1), (3, hl - 1), (0, 2 + hl), (2, 1), (1, 1), (0, 1)] {
+                offer(&mut b, t, vec![TokFault::TextRemoveRange { at, n }]);
+                offer(&mut b, t, vec![TokFault::TextDupRange { at, n }]);
+            }
             // impossible lengths: drop 1..5 trailing characters (one of them leaves len = 1 mod 4)
             for n in 1..=5usize {
                 offer(&mut b, t, vec![TokFault::TextDropBack { n }]);
